@@ -57,7 +57,7 @@ func (c *reach) add(fn, status string, n int) {
 	c.mu.Unlock()
 }
 
-var errorStatuses = []string{vfsh.EIO, vfsh.ENOENT, vfsh.EEXIST, vfsh.EISDIR, vfsh.ENOTDIR, vfsh.ENOTEMPTY, vfsh.EPERM, vfsh.ESTALE, vfsh.ESYMLINK, vfsh.EFETCH, vfsh.EINVAL}
+var errorStatuses = []string{vfsh.EIO, vfsh.ENOENT, vfsh.EEXIST, vfsh.EISDIR, vfsh.ENOTDIR, vfsh.ENOTEMPTY, vfsh.EPERM, vfsh.ESTALE, vfsh.ESYMLINK, vfsh.EFETCH, vfsh.EINVAL, vfsh.EXDEV, "ENXIO"}
 
 func isErrorStatus(s string) bool {
 	return s != vfsh.OK && s != "true" && s != "false" && s != "-" && s != "*"
